@@ -75,3 +75,8 @@ claim("C02", "DESIGN.md §3 C02",
       "For all inputs: enumerable panic sources and the rule typestate. Every not-empty return of parseRule (and the helpers it returns through) carries a rule body or an error and every caller tests the isEmpty flag; regular checks are built only for error-free entries, the error check cannot be disabled, and typestate-reliant functions are called outside the checks only under an error-free/body guard; no single-value assertion on PromQL/template/YAML AST interfaces outside the idioms that establish the type; no slicing/indexing with an unchecked strings.Index result; slices.Max/Min only under a non-empty guard; optional pointers (rule bodies, for/keep_firing_for/labels/annotations, group labels, Entry.Group/File, PromQLExpr.Query) dereferenced only under a guard in the function or all callers; regexp.MustCompile only on constants, quoted text or validated config. Seven genuine crashes found by these rules were fixed. Termination and index arithmetic are NOT decided.",
       SA_NOTE,
       "static analysis: typestate on return sites, enumerated panic-source detectors over the type-checked AST, nil-guard dominance on go/cfg with caller inference, provenance of MustCompile arguments")
+
+claim("C01", "DESIGN.md §3 C01",
+      "Sibling-acceptor coverage, not language inclusion: the keys pint's strict walker accepts are a subset of the yaml tags of the vendored rulefmt types and every key switch rejects by default; every rejection reason of the vendored Prometheus loader (41 enumerated, site counts re-checked against the vendored source on every run) has a counterpart on the pint side — a guarded error exit identified by its predicate over role-normalised locals, or an unconditionally registered, default-enabled, offline check that validates every field/label/annotation it is responsible for and reports >= Bug; parse errors at file, group and rule level are routed to the always-enabled Fatal error check; the strict gate rejects multi-document files. Six genuine acceptance gaps found by these rules were fixed. Equivalence on exact byte strings is NOT decided.",
+      SA_NOTE,
+      "static analysis: table agreement against vendored struct tags, enumeration of guarded error exits (lexical guards incl. first-match switch semantics and if-init lookups), registration/Meta table checks")
